@@ -17,9 +17,9 @@ PROPERTY = "C12"
 LEVEL = "exploration"
 RULE = (
     "mode 'centres': world {equator,npole,straddle|+spole,generic} x N{2,3,4} x every permutation of the centre "
-    "list x layout {single object per centre, several objects incl. near-border, centre k attracts nothing "
+    "list x layout {single object per centre, several objects incl. near-border, objects 3.5e-7 ... 5e-9 rad from a border, outermost objects with weight 0 / -1, centre k attracts nothing "
     "for each k} x weighted; mode 'ids': N{2,3,4} x scrambled id columns x weighted; mode 'create': patch_num "
-    "{2,3} on clumped data; 'refuse': id sets {0..N-1} vs every proper subset/superset of size N-1,N+1 and "
+    "{2,3} on clumped data; from_random with given centres and a patch_num that must be ignored; 'refuse': id sets {0..N-1} vs every proper subset/superset of size N-1,N+1 and "
     "centre k displaced by {0, 0.4, 1.1, 3} x the larger radius. Oracle: num_records/sum_weights from the stored "
     "records, Vincenty separation <= radius, centres[i] == given centre i (also after the caller has modified its own centre array in place), nearest-centre partition. "
     "Non-trivial: N>=3 with a non-identity permutation, an empty centre, or a refusal case."
@@ -40,7 +40,7 @@ def cases(tier, seed):
         for perm in itertools.permutations(range(N)):
             if tier == "quick" and N == 4 and world != "equator":
                 continue
-            for layout in ["single", "spread"] + [f"empty{k}" for k in range(N)]:
+            for layout in ["single", "spread", "knife"] + [f"empty{k}" for k in range(N)]:
                 out.append(dict(part="centres", world=world, N=N, perm=list(perm), layout=layout,
                                 weighted=weighted, seed=seed))
             # input read in several chunks, rows in reverse order: higher patch ids are met first
@@ -50,6 +50,12 @@ def cases(tier, seed):
                 if tier != "quick":
                     out.append(dict(part="centres", world=world, N=N, perm=list(perm), layout="single",
                                     weighted=weighted, seed=seed, chunksize=cs, reverse=True))
+    for world, N in itertools.product(ws, (2, 3)):
+        out.append(dict(part="centres", world=world, N=N, perm=list(range(N)), layout="spread", weighted="zero-outer",
+                        seed=seed))
+    # random catalogs with given centres and a (to be ignored) patch_num
+    for N, cs in itertools.product((1, 2), (3, None)):
+        out.append(dict(part="random-centres", N=N, chunksize=cs, seed=seed))
     for N, weighted, scramble in itertools.product((2, 3, 4), (False, True), (0, 1, 2)):
         out.append(dict(part="ids", N=N, weighted=weighted, scramble=scramble, seed=seed))
     for K, weighted in itertools.product((2, 3), (False, True)):
@@ -131,11 +137,15 @@ def check_catalog(cat, mode, v, *, given_centres=None, input_rows=None, weighted
 
 
 def objects_for(N, layout, seed, weighted):
-    offs = {"single": [0.0], "spread": [0.0, 0.7, -2.5, 2.8, -2.8]}
+    # knife: objects 2e-5 ... 3e-7 deg (3.5e-7 ... 5e-9 rad) on either side of the border between two centres
+    offs = {"single": [0.0], "spread": [0.0, 0.7, -2.5, 2.8, -2.8],
+            "knife": [0.0, D / 2 - 2e-5, -(D / 2 - 2e-5), D / 2 - 4e-6, -(D / 2 - 4e-6), D / 2 - 1e-6, -(D / 2 - 1e-6),
+                      D / 2 - 3e-7, -(D / 2 - 3e-7)]}
     objs = []
     empty = int(layout[5:]) if layout.startswith("empty") else None
     use = offs["spread"] if empty is not None else offs[layout]
-    prime = iter([2, 3, 5, 7, 11, 13, 17, 19, 23, 29, 31, 37, 41, 43, 47, 53, 59, 61, 67, 71, 73, 79, 83])
+    prime = iter([2, 3, 5, 7, 11, 13, 17, 19, 23, 29, 31, 37, 41, 43, 47, 53, 59, 61, 67, 71, 73, 79, 83, 89, 97, 101, 103,
+                  107, 109, 113, 127, 131, 137, 139, 149, 151, 157, 163, 167, 173, 179, 181, 191, 193, 197, 199])
     for k in range(N):
         if k == empty:
             continue
@@ -143,6 +153,11 @@ def objects_for(N, layout, seed, weighted):
             ra = k * D + off + worlds.jitter(seed, f"{k}{t}ra")
             dec = (0.4 if t % 2 else 0.0) + worlds.jitter(seed, f"{k}{t}dec")
             objs.append(dict(ra=ra, dec=dec, z=None, w=float(next(prime)) if weighted else None, name=f"o{k}{t}"))
+    if weighted == "zero-outer":
+        # the outermost objects of every patch carry weight 0 (masked objects kept in the table), one is negative
+        for o in objs:
+            if o["name"][-1] in "34":
+                o["w"] = 0.0 if o["name"][-1] == "3" else -1.0
     return objs
 
 
@@ -177,6 +192,24 @@ def run_centres(case):
     nontrivial = empty or (N >= 3 and perm != sorted(perm)) or case["layout"] == "spread"
     tag = tag  # (chunked/reversed inputs share the signatures of the unchunked ones)
     return v, nontrivial
+
+
+def run_random_centres(case):
+    from yaw import AngularCoordinates, Catalog
+    from yaw.randoms import BoxRandoms
+
+    N = case["N"]
+    cen = np.deg2rad(np.array([[12.0, 1.0], [16.0, -1.0]][:N]))
+    gen = BoxRandoms(10.0, 18.0, -3.0, 3.0, seed=7)
+    d = runner.fresh_dir("c12r")
+    v = []
+    try:
+        cat = Catalog.from_random(d + "/cat", gen, 40, patch_centers=AngularCoordinates(cen.copy()), patch_num=3,
+                                  probe_size=30, chunksize=case["chunksize"])
+    except Exception as e:
+        return [viol(f"C12/random-centres/exception:{type(e).__name__}", yawx.exc_name(e), case)], True
+    check_catalog(cat, "centres", v, given_centres=cen, input_rows=40, tag="/from_random+patch_num")
+    return v, True
 
 
 def run_ids(case):
@@ -328,7 +361,7 @@ def run_refuse_single(case):
 
 def run_case(case):
     fn = {"centres": run_centres, "refuse-single": run_refuse_single, "ids": run_ids, "create": run_create, "refuse-ids": run_refuse_ids,
-          "refuse-shift": run_refuse_shift}[case["part"]]
+          "refuse-shift": run_refuse_shift, "random-centres": run_random_centres}[case["part"]]
     viols, nontrivial = fn(case)
     res = dict(nontrivial=bool(nontrivial), key=case)
     if viols:
